@@ -24,7 +24,7 @@ PROPERTY = "C21"
 LEVEL = "fault_enumeration"
 BUDGET = {"quick": 176, "thorough": 3000}
 CHUNK = 1
-RUN_TIMEOUT_S = 600
+RUN_TIMEOUT_S = 1500
 MAX_DISCARD_FRACTION = 0.5
 ALL = ["Rattle", "Moreau", "BackwardEuler", "DualStormerVerlet", "Newton", "Riks", "ScipyIVP", "ScipyDAE"]
 RULE = (
